@@ -46,6 +46,7 @@ type Site struct {
 	Loc    Loc
 	Write  bool
 	Atomic bool
+	Op     string // ANone, or for sync/atomic accesses: ALoad, AStore, ARMW (Add, Swap, CompareAndSwap, And, Or)
 	Base   string // BGlobal BRecv BParam BCaptured BLocal BOther
 	Pos    string
 	Why    string
@@ -547,13 +548,15 @@ func (x *extractor) escapeAnalysis() {
 // pass 2: bodies
 
 type walker struct {
-	x        *extractor
-	f        *Func
-	info     *types.Info
-	noRead   map[ast.Node]bool
-	atomic   map[ast.Node]bool // &X operands that are direct arguments of a sync/atomic call
-	origins  map[*types.Var][]ast.Expr
-	visiting map[*types.Var]bool
+	x         *extractor
+	f         *Func
+	info      *types.Info
+	noRead    map[ast.Node]bool
+	atomic    map[ast.Node]bool // &X operands that are direct arguments of a sync/atomic call
+	aop       map[ast.Node]string
+	pendingOp string
+	origins   map[*types.Var][]ast.Expr
+	visiting  map[*types.Var]bool
 }
 
 func unparen(e ast.Expr) ast.Expr {
@@ -951,12 +954,33 @@ func (w *walker) add(l *Loc, write, atomic bool, base string, p token.Pos, why s
 	if l == nil {
 		return
 	}
+	op := "ANone"
+	if atomic {
+		op = w.pendingOp
+		if op == "" {
+			op = "ARMW"
+		}
+		if op == "ALoad" {
+			write = false
+		}
+	}
 	for _, s := range w.f.Sites {
-		if s.Loc == *l && s.Write == write && s.Atomic == atomic && s.Base == base {
+		if s.Loc == *l && s.Write == write && s.Atomic == atomic && s.Op == op && s.Base == base {
 			return
 		}
 	}
-	w.f.Sites = append(w.f.Sites, Site{Loc: *l, Write: write, Atomic: atomic, Base: base, Pos: w.x.pos(p), Why: why})
+	w.f.Sites = append(w.f.Sites, Site{Loc: *l, Write: write, Atomic: atomic, Op: op, Base: base, Pos: w.x.pos(p), Why: why})
+}
+
+// atomicOp: which kind of access a sync/atomic function or method performs
+func atomicOp(name string) string {
+	switch {
+	case strings.HasPrefix(name, "Load"):
+		return "ALoad"
+	case strings.HasPrefix(name, "Store"):
+		return "AStore"
+	}
+	return "ARMW"
 }
 
 func (w *walker) write(e ast.Expr, why string) {
@@ -1106,6 +1130,7 @@ func (w *walker) call(c *ast.CallExpr) {
 		if u, ok := a.(*ast.UnaryExpr); ok && u.Op == token.AND {
 			if isAtomic {
 				w.atomic[u] = true
+				w.aop[u] = atomicOp(fn.Name())
 			}
 			continue // handled by the & rule
 		}
@@ -1117,6 +1142,7 @@ func (w *walker) call(c *ast.CallExpr) {
 			if id, ok := a.(*ast.Ident); ok && id.Name == "nil" {
 				continue
 			}
+			w.pendingOp = atomicOp(fn.Name())
 			w.addAll(w.elemLocs(a, 0), true, isAtomic, w.baseKind(a), a.Pos(), "reference passed to "+fn.FullName())
 		}
 		if types.IsInterface(at) {
@@ -1132,10 +1158,12 @@ func (w *walker) call(c *ast.CallExpr) {
 		xt := w.typeOf(se.X)
 		_, xPtr := xt.Underlying().(*types.Pointer)
 		why := "receiver of " + fn.FullName()
+		w.pendingOp = atomicOp(fn.Name()) // atomic.Int32 etc.: x.Load(), x.Store(v), x.Add(d), x.CompareAndSwap(o, n)
 		if recvPtr && !xPtr {
-			w.addAll(w.lvalueLocs(se.X), true, false, w.baseKind(se.X), se.X.Pos(), why)
+			w.noRead[unparen(se.X)] = true
+			w.addAll(w.lvalueLocs(se.X), true, isAtomic, w.baseKind(se.X), se.X.Pos(), why)
 		} else if isRefType(xt) {
-			w.addAll(w.elemLocs(se.X, 0), true, false, w.baseKind(se.X), se.X.Pos(), why)
+			w.addAll(w.elemLocs(se.X, 0), true, isAtomic, w.baseKind(se.X), se.X.Pos(), why)
 		}
 	}
 	if callbacks {
@@ -1194,7 +1222,8 @@ func (w *walker) visit(n ast.Node) bool {
 				}
 				why := "address taken"
 				if w.atomic[t] {
-					why = "address passed to sync/atomic"
+					why = "address passed to sync/atomic (" + w.aop[t] + ")"
+					w.pendingOp = w.aop[t]
 				}
 				w.addAll(w.lvalueLocs(x), true, w.atomic[t], w.baseKind(x), x.Pos(), why)
 			}
@@ -1246,7 +1275,7 @@ func (w *walker) visit(n ast.Node) bool {
 }
 
 func (x *extractor) pass2(f *Func) {
-	w := &walker{x: x, f: f, info: f.pkg.info, noRead: map[ast.Node]bool{}, atomic: map[ast.Node]bool{}}
+	w := &walker{x: x, f: f, info: f.pkg.info, noRead: map[ast.Node]bool{}, atomic: map[ast.Node]bool{}, aop: map[ast.Node]string{}}
 	// mark &X arguments of sync/atomic calls first (Inspect visits the call before its arguments, so
 	// call() has already run when the UnaryExpr is reached; nothing else to do here)
 	w.collectOrigins()
@@ -1382,7 +1411,7 @@ func main() {
 	for i, f := range x.funcs {
 		var ss []string
 		for _, s := range f.Sites {
-			ss = append(ss, fmt.Sprintf("mkSite (%s) %s %s %s %s %s", locCoq(s.Loc), b(s.Write), b(s.Atomic), s.Base, b(s.Loc.Kind == "C" && s.Loc.InvLocal), q(s.Pos+" "+s.Why)))
+			ss = append(ss, fmt.Sprintf("mkSite (%s) %s %s %s %s %s %s", locCoq(s.Loc), b(s.Write), b(s.Atomic), s.Op, s.Base, b(s.Loc.Kind == "C" && s.Loc.InvLocal), q(s.Pos+" "+s.Why)))
 			nsites++
 			if s.Write {
 				nwrites++
